@@ -109,6 +109,15 @@ def scenario(c, d, runs=None):
             for t in range(K, T):
                 L += step_lines(c, t)
             L += ["save text %sB_%s.colvars.state" % (pre, lab)]
+            if c.get("shuffle") and fmt == "text":
+                # the same state with its blocks in another order and a foreign block: must load to the same objects
+                fs = "%ss_%s" % (pre, lab)
+                L += ["shufflestate %s.colvars.state %s.colvars.state %d" % (fa, fs, K + 1)]
+                L += begin_lines(c, "S_" + lab, pre)
+                L += ["load %s" % fs]
+                for t in range(K, T):
+                    L += step_lines(c, t)
+                L += ["save text %sS_%s.colvars.state" % (pre, lab)]
     L.append("echo END")
     return L
 
